@@ -29,6 +29,12 @@ every judged attribute of every pool object must be the difference committed -> 
   unloaded (touched only through the back-reference) only the queued adds / removes are
   required, ``unchanged`` is not judged.
 
+Input classes enumerated besides the random sequences: every mutator of the instrumented
+list / set / dict classes (pop, popitem, clear, del, item / slice assignment, update,
+discard, the in-place operators ...) - often as the *first* mutation since load; the
+many-to-one product {loaded, unloaded, expired} x {FK column attribute written directly or
+not} x {target in the identity map or not} x {del, set, None}.
+
 Final flush: must not raise; afterwards no attribute reports added / deleted; the rows
 equal the current values (read through the raw DBAPI handle that owns the transaction);
 each UPDATE of ``p`` / ``c`` sets exactly the columns with a net change (a value set back
@@ -60,7 +66,8 @@ META = {
     "exhaustive": {"quick": False, "thorough": False},
     "require": ["history_checks", "scalar_changed_checks", "set_back_checks", "unknown_old_checks", "m2o_checks",
                 "collection_changed_checks", "pending_collection_checks", "flushes", "post_flush_history_checks",
-                "row_checks", "update_column_checks"],
+                "row_checks", "update_column_checks", "mutator_ops", "mutator_as_first_mutation", "fk_written_directly",
+                "del_parent_unloaded_checks", "m2o_product_cases"],
     "assumptions": ["the reference model (about 150 lines) encodes the History documentation correctly"],
 }
 
@@ -103,6 +110,8 @@ class Model:
         # tell the old parent's collection (documented staleness).  Such a collection is
         # neither judged nor operated on directly afterwards.
         self.frozen = set()
+        self.phantom = {}     # parent name -> primary key of a parent row that is never loaded by the harness
+        self.fk_dirty = set() # children whose FK column attribute was written directly
 
     def uniq(self, t):
         self.fresh += 1
@@ -131,11 +140,24 @@ class Model:
         w.update(kw)
         self.ctx.violation(mech, summary, w)
 
+    def pobj(self, name):
+        """Parent object by model name; a phantom parent only if the library loaded it."""
+        if name is None:
+            return None
+        if name in self.objs:
+            return self.objs[name]
+        from sqlalchemy.orm.util import identity_key
+
+        return self.s.identity_map.get(identity_key(self.rig.cls["P"], self.phantom[name]))
+
     def nm(self, o):
         if o is None:
             return None
         for k, v in self.objs.items():
             if v is o:
+                return k
+        for k in self.phantom:
+            if self.pobj(k) is o:
                 return k
         return "?" + type(o).__name__
 
@@ -162,13 +184,12 @@ class Model:
             a.committed = ("v", loaded_value)
         elif cname in self.new:
             a.committed = ABSENT
-        elif self.ah and direct:
+        elif self.ah and direct and self.db[(cname, "parent")] not in self.phantom and cname not in self.fk_dirty:
             dbp = self.db[(cname, "parent")]
             a.committed = ("v", self.objs[dbp] if dbp else None)
         else:
             a.committed = UNKNOWN
-            dbp = self.db[(cname, "parent")]
-            a.alt_deleted = self.objs[dbp] if dbp else None
+            a.alt_deleted = self.db[(cname, "parent")]     # a *name*, resolved when compared
         return a
 
     def touch_coll(self, pname, was_loaded, loaded_members, direct):
@@ -233,12 +254,16 @@ class Model:
             dele = [[c0]] if c0 is not None else [[], [None]]
             return (added_del if cur is DEL else [[curv]]), [[]], dele
         # old target never loaded (UNKNOWN) or a new object (ABSENT, the library sees None)
-        alt = a.alt_deleted if a.committed is UNKNOWN else None
+        alt = self.pobj(a.alt_deleted) if a.committed is UNKNOWN else None
         dele = [[]] + ([[alt]] if alt is not None else [[None]])
         if cur is not DEL and curv is alt:
             # set to what it (unknowingly) was: either "added" or recognised as unchanged
             # (the library may resolve the old target / a NULL foreign key without SQL)
             return [[curv], []], [[], [curv]], [[]]
+        if cur is not DEL and curv is None and cname in self.fk_dirty:
+            # FK attribute written directly on an expired object: its committed FK is not
+            # known in memory, the old target may resolve to None
+            return [[None], []], [[], [None]], dele
         return (added_del if cur is DEL else [[curv]]), [[]], dele
 
     # ---- the comparison ---------------------------------------------------------
@@ -398,18 +423,20 @@ def op_read(m, name, attr):
     return ("read", name, attr)
 
 
-def relink(m, cname, new_parent, via):
+def relink(m, cname, new_parent, via, pre=None):
     """cname gets parent new_parent (name or None). via = 'm2o' (c.parent = ...) | 'del' | 'append' | 'remove'.
     Updates first-touch knowledge for both sides, then the relation."""
     c = m.objs[cname]
     old_parent = m.rel[cname]
     # --- child side
-    was, val = "parent" in c.__dict__, c.__dict__.get("parent")
+    was, val = pre if pre is not None else ("parent" in c.__dict__, c.__dict__.get("parent"))
     a = m.touch_parent(cname, was, val, direct=via in ("m2o", "del"))
     if not was and a.committed is UNKNOWN and old_parent and via in ("m2o", "del", "append"):
         m.frozen.add(old_parent)
     # --- collection sides (old and new parent)
     for pn in {old_parent, new_parent} - {None}:
+        if pn not in m.objs:
+            continue       # phantom parent: never loaded, nothing to model on its side
         p = m.objs[pn]
         loaded = "children" in p.__dict__
         members = {m.nm(x) for x in Model.coll_values(p)} if loaded else set()
@@ -442,10 +469,10 @@ def op_child_parent(m, cname, target):
     c = m.objs[cname]
     if target == "del":
         a = m.att[(cname, "parent")]
-        if a.current is DEL or c.__dict__.get("parent") is None:
-            return None    # only a present, non-None reference is deleted
-        old = m.rel[cname]
-        # old parent's collection, when unloaded, must be known to the model as a pending removal
+        if a.current is DEL or (cname in m.new and c.__dict__.get("parent") is None):
+            return None    # (a new object without a value: AttributeError by design)
+        if "parent" not in c.__dict__:
+            m.ctx.count("del_parent_unloaded_checks")
         relink(m, cname, None, "del")
         del c.parent
         return ("del_parent", cname)
@@ -541,13 +568,175 @@ def op_replace(m, pname, ckind, rng, clear=False):
     return ("clear" if clear else "replace", pname, len(keep), len(add))
 
 
+MUTATORS = {
+    "list": ["append", "insert", "extend", "iadd", "remove", "pop", "pop0", "delitem", "setitem", "setslice", "delslice",
+             "clear"],
+    "set": ["add", "update", "ior", "discard", "remove", "pop", "clear", "difference_update", "isub",
+            "intersection_update", "iand", "symmetric_difference_update", "ixor"],
+    "dict": ["setitem_new", "setitem_replace", "delitem", "pop", "pop_default", "pop_missing_default", "popitem", "clear",
+             "update", "setdefault_new", "setdefault_present"],
+}
+
+
+def op_mutate(m, pname, ckind, rng, which=None):
+    """Any mutator of the instrumented collection class, as the application would call it.
+    What left / joined the collection is read off the collection itself (before / after),
+    the model is then updated with the pre-operation load state of every child."""
+    if pname in m.frozen:
+        return None
+    p = m.objs[pname]
+    mut = which or rng.choice(MUTATORS[ckind])
+    kids = [n for n in m.kind if m.kind[n] == "c"]
+    pre = {n: ("parent" in m.objs[n].__dict__, m.objs[n].__dict__.get("parent")) for n in kids}
+    was_loaded = "children" in p.__dict__
+    members0 = {m.nm(x) for x in Model.coll_values(p)} if was_loaded else set()
+    first = m.coll[pname]["mode"] == "untouched"
+    m.touch_coll(pname, was_loaded, members0, direct=True)
+    coll = p.children                      # (loads, as every direct operation does)
+
+    def vals():
+        return list(coll.values()) if isinstance(coll, dict) else list(coll)
+
+    before = [m.nm(x) for x in vals()]
+    if set(before) != m.members(pname):
+        return None                        # (stale side of an un-modelled relation: not judged)
+    fresh = []
+
+    def newc():
+        n = new_child(m)
+        fresh.append(n)
+        pre[n] = (False, None)
+        return m.objs[n]
+
+    outsiders = [m.objs[n] for n in kids if m.rel[n] != pname and n not in m.new]
+    present = vals()
+    if ckind == "list":
+        if mut == "append":
+            coll.append(newc())
+        elif mut == "insert":
+            coll.insert(rng.randint(0, len(present)), newc())
+        elif mut == "extend":
+            coll.extend([newc(), newc()])
+        elif mut == "iadd":
+            coll += [newc()]
+        elif mut == "clear":
+            coll.clear()
+        elif not present:
+            return None
+        elif mut == "remove":
+            coll.remove(rng.choice(present))
+        elif mut == "pop":
+            coll.pop()
+        elif mut == "pop0":
+            coll.pop(0)
+        elif mut == "delitem":
+            del coll[rng.randrange(len(present))]
+        elif mut == "setitem":
+            coll[rng.randrange(len(present))] = newc()
+        elif mut == "setslice":
+            coll[0:1] = [newc(), newc()]
+        elif mut == "delslice":
+            del coll[0:2]
+    elif ckind == "set":
+        if mut == "add":
+            coll.add(newc())
+        elif mut == "update":
+            coll.update([newc(), newc()])
+        elif mut == "ior":
+            coll |= {newc()}
+        elif mut == "clear":
+            coll.clear()
+        elif mut == "symmetric_difference_update":
+            coll.symmetric_difference_update(set(present[:1]) | {newc()})
+        elif mut == "ixor":
+            coll ^= set(present[:1]) | {newc()}
+        elif not present:
+            return None
+        elif mut == "discard":
+            coll.discard(rng.choice(present))
+        elif mut == "remove":
+            coll.remove(rng.choice(present))
+        elif mut == "pop":
+            coll.pop()
+        elif mut == "difference_update":
+            coll.difference_update(present[:1])
+        elif mut == "isub":
+            coll -= set(present[:1])
+        elif mut == "intersection_update":
+            coll.intersection_update(present[1:])
+        elif mut == "iand":
+            coll &= set(present[1:])
+    else:
+        keys = list(coll.keys())
+        if mut == "setitem_new":
+            c = newc()
+            coll[c.k] = c
+        elif mut == "update":
+            c1, c2 = newc(), newc()
+            coll.update({c1.k: c1, c2.k: c2})
+        elif mut == "setdefault_new":
+            c = newc()
+            coll.setdefault(c.k, c)
+        elif mut == "clear":
+            coll.clear()
+        elif mut == "pop_missing_default":
+            coll.pop("no-such-key", None)
+        elif not keys:
+            return None
+        elif mut == "setitem_replace":
+            c = newc()
+            c.k = keys[0]
+            old = coll[keys[0]]
+            coll[keys[0]] = c
+            old.k = m.uniq("rk")    # two children must never share a key (a later re-add would collide)
+        elif mut == "delitem":
+            del coll[rng.choice(keys)]
+        elif mut == "pop":
+            coll.pop(rng.choice(keys))
+        elif mut == "pop_default":
+            coll.pop(rng.choice(keys), None)
+        elif mut == "popitem":
+            coll.popitem()
+        elif mut == "setdefault_present":
+            coll.setdefault(keys[0], present[0])
+    after = [m.nm(x) for x in vals()]
+    for n in before:
+        if n not in after:
+            relink(m, n, None, "remove", pre=pre[n])
+    for n in after:
+        if n not in before:
+            relink(m, n, pname, "append", pre=pre[n])
+    # children created for the call that did not end up in the collection stay unrelated
+    m.ctx.count("mutator_ops")
+    m.ctx.seen("mutators", f"{ckind}.{mut}")
+    if first:
+        m.ctx.count("mutator_as_first_mutation")
+    return ("mutate", pname, mut)
+
+
+def op_set_fk(m, cname, rng, target="random"):
+    """Write the foreign key column attribute directly (committed FK != current FK).  The
+    relationship attribute is documented not to follow; the row of such a child is not
+    judged at flush, its attribute histories are."""
+    if cname in m.new:
+        return None
+    c = m.objs[cname]
+    if target == "random":
+        target = rng.choice([1, 2, 3, None])
+    c.p_id = target
+    m.fk_dirty.add(cname)
+    m.ctx.count("fk_written_directly")
+    return ("set_fk", cname, target)
+
+
 # --------------------------------------------------------------------------
 # case
 # --------------------------------------------------------------------------
 def seed(rig):
     con = rig.obs
-    con.execute("INSERT INTO p (id, name, n) VALUES (1,'p1',1),(2,'p2',2)")
-    con.execute("INSERT INTO c (id, p_id, v, k) VALUES (1,1,'c1','k1'),(2,1,'c2','k2'),(3,2,'c3','k3'),(4,NULL,'c4','k4')")
+    con.execute("INSERT INTO p (id, name, n) VALUES (1,'p1',1),(2,'p2',2),(3,'p3',3)")
+    con.execute("INSERT INTO c (id, p_id, v, k) VALUES (1,1,'c1','k1'),(2,1,'c2','k2'),(3,2,'c3','k3'),(4,NULL,'c4','k4'),"
+                "(5,3,'c5','k5')")
 
 
 def build_case(ctx, rig, subject, ckind, ah, desc):
@@ -563,13 +752,14 @@ def build_case(ctx, rig, subject, ckind, ah, desc):
     else:
         p1 = s.get(P, 1)
     p2 = s.get(P, 2)
-    cs = {i: s.get(C, i) for i in (1, 2, 3, 4)}
+    cs = {i: s.get(C, i) for i in (1, 2, 3, 4, 5)}
+    m.phantom["p3"] = 3      # P(3) is never loaded by the harness: c5's parent is not in the identity map
     if subject == "loaded-coll":
         p1.children
         cs[1].parent
     m.register("p1", p1, "p", db={"name": "p1", "n": 1})
     m.register("p2", p2, "p", db={"name": "p2", "n": 2})
-    for i, par in ((1, "p1"), (2, "p1"), (3, "p2"), (4, None)):
+    for i, par in ((1, "p1"), (2, "p1"), (3, "p2"), (4, None), (5, "p3")):
         m.register(f"c{i}", cs[i], "c", db={"v": f"c{i}"}, parent=par)
     if subject == "expired":
         s.commit()
@@ -580,6 +770,41 @@ def build_case(ctx, rig, subject, ckind, ah, desc):
         if ctx.rng.random() < 0.5:
             s.add(pn)
     return s, m
+
+
+def run_script(ctx, rig, subject, ckind, ah, script):
+    """A fixed op list (the enumerated many-to-one product) through the same model and checks."""
+    rng = ctx.rng
+    rig.wipe()
+    seed(rig)
+    desc = {"subject": subject, "collection": ckind, "active_history": ah, "ops": []}
+    s, m = build_case(ctx, rig, subject, ckind, ah, desc)
+    try:
+        m.check_histories("at start")
+        for op in script:
+            if m.violated:
+                break
+            if op[0] == "load_parent":
+                m.objs[op[1]].parent          # plain read: loads, no history
+                d = op
+            elif op[0] == "set_fk":
+                d = op_set_fk(m, op[1], rng, target=op[2])
+            elif op[0] == "del_parent":
+                d = op_child_parent(m, op[1], "del")
+            else:
+                d = op_child_parent(m, op[1], op[2])
+            if d is None:
+                continue
+            desc["ops"].append(list(d))
+            m.check_histories(f"after {tuple(d)}")
+        if not m.violated:
+            flush_and_check(ctx, rig, s, m, "p1")
+    finally:
+        s.close()
+        rig.sessions.remove(s)
+    ctx.count("m2o_product_cases")
+    ctx.case({"subject": subject, "coll": ckind, "ah": ah, "ops": desc["ops"]}, nontrivial=len(desc["ops"]) >= 2)
+    return m
 
 
 def gen_and_run(ctx, rig, subject, ckind, ah, length):
@@ -597,8 +822,8 @@ def gen_and_run(ctx, rig, subject, ckind, ah, length):
             tries += 1
             kind = rng.choices(
                 ["set", "del", "read", "set_v", "append_new", "append_old", "insert_new", "remove", "replace", "clear",
-                 "set_parent", "del_parent"],
-                [10, 2, 3, 4, 6, 4, 2, 5, 3, 1, 7, 1])[0]
+                 "set_parent", "del_parent", "mutate", "set_fk"],
+                [10, 2, 3, 4, 4, 4, 1, 3, 3, 1, 7, 4, 10, 3])[0]
             pname = main if rng.random() < 0.8 else rng.choice(["p1", "p2"])
             kids = [n for n in m.kind if m.kind[n] == "c"]
             if kind == "set":
@@ -621,6 +846,10 @@ def gen_and_run(ctx, rig, subject, ckind, ah, length):
                 d = op_replace(m, pname, ckind, rng)
             elif kind == "clear":
                 d = op_replace(m, pname, ckind, rng, clear=True)
+            elif kind == "mutate":
+                d = op_mutate(m, pname, ckind, rng)
+            elif kind == "set_fk":
+                d = op_set_fk(m, rng.choice(kids), rng)
             elif kind == "set_parent":
                 d = op_child_parent(m, rng.choice(kids), rng.choice([main, "p1", "p2", None]))
             else:
@@ -687,8 +916,9 @@ def flush_and_check(ctx, rig, s, m, main):
     for name, o in m.objs.items():
         if o in s:
             ids[name] = m.inspect(o).identity[0]
+    ids.update(m.phantom)
     for name, o in m.objs.items():
-        if name not in ids:
+        if name not in ids or name in m.fk_dirty:
             continue
         ctx.count("row_checks")
         if m.kind[name] == "p":
@@ -723,9 +953,9 @@ def flush_and_check(ctx, rig, s, m, main):
         plist = e.params if e.kind == "executemany" else [e.params]
         for params in plist:
             pk = params[-1]
-            seen.setdefault((table, pk), set()).update(c for c in cols if c != "p_id")
+            seen.setdefault((table, pk), set()).update(c for c in cols if c not in ("p_id", "k"))
     for name, o in m.objs.items():
-        if name in m.new or name not in ids:
+        if name in m.new or name not in ids or name in m.fk_dirty:
             continue
         table = m.kind[name]
         got = seen.get((table, ids[name]), set())
@@ -745,10 +975,29 @@ def run(ctx):
     per = ctx.pick({"quick": 10, "thorough": 300})
     subjects = ["loaded", "loaded-coll", "expired", "partial", "new"]
     sampled = 0
+    prod_idx = [0]
     for ckind in ("list", "set", "dict"):
         for ah in (False, True):
             rig = R.Rig(ctx, [lambda sa, orm, reg, ck=ckind, ah=ah: R.zoo_pc(sa, orm, reg, collection=ck, active_history=ah)])
             try:
+                # many-to-one product: {parent loaded, unloaded, expired} x child (target in the
+                # identity map: c1, c3; no target: c4; target never loaded: c5) x FK column
+                # attribute {untouched, written to 1 / 2 / 3 (not in the identity map) / None}
+                # x {del, set p1, set p2, set None}
+                for state in ("loaded", "unloaded", "expired"):
+                    for cname in ("c1", "c3", "c4", "c5"):
+                        for fk in ("keep", 1, 2, 3, None):
+                            for act in ("del", "p1", "p2", None):
+                                prod_idx[0] += 1
+                                if not ctx.mine(prod_idx[0]) or not ctx.budget_ok():
+                                    continue
+                                script = []
+                                if state == "loaded":
+                                    script.append(("load_parent", cname))
+                                if fk != "keep":
+                                    script.append(("set_fk", cname, fk))
+                                script.append(("del_parent", cname) if act == "del" else ("set_parent", cname, act))
+                                run_script(ctx, rig, "expired" if state == "expired" else "loaded", ckind, ah, script)
                 for subject in subjects:
                     for k in range(per):
                         if not ctx.budget_ok():
